@@ -691,3 +691,306 @@ Proof.
     destruct (set_mask_cases (length g) 0 s (repeat false (length g))) as [(mk & -> & Hl) | ->];
       [apply (Hfin false); assumption | discriminate].
 Qed.
+
+(** * 5. diteration and push *)
+
+Lemma row_range_lt n indptr indices i :
+  csr_pat_wf n indptr indices -> i < n ->
+  forall k, In k (seq (ip indptr i) (ip indptr (S i) - ip indptr i)) -> k < length indices.
+Proof.
+  intros Hwf Hi k Hk. apply in_seq in Hk.
+  pose proof (csr_le_nnz _ _ _ (S i) Hwf ltac:(lia)).
+  pose proof (csr_mono _ _ _ Hwf i (S i) ltac:(lia) ltac:(lia)). lia.
+Qed.
+
+Lemma dit_row_ok n indptr indices (data : list Q) tmp :
+  csr_wf n indptr indices data ->
+  forall jjs fluid, (forall k, In k jjs -> k < length indices) -> length fluid = n ->
+    exists fluid', dit_row jjs indices data fluid tmp = KOk fluid' /\ length fluid' = n.
+Proof.
+  intros [Hwf Hd]. induction jjs as [|jj t IH]; intros fluid Hjs Hf; cbn [dit_row].
+  - exists fluid. auto.
+  - destruct (csr_rd_indices _ _ _ jj Hwf (Hjs jj (or_introl eq_refl))) as [Hr Hlt].
+    rewrite Hr. cbn [kbind].
+    rewrite (rd_ok fluid _ 0%Q) by lia. cbn [kbind].
+    rewrite (rd_ok data jj 0%Q) by (rewrite Hd; apply Hjs; left; reflexivity). cbn [kbind].
+    rewrite wr_ok by lia. cbn [kbind].
+    apply IH.
+    + intros k Hk. apply Hjs. right. exact Hk.
+    + rewrite set_nth_length. exact Hf.
+Qed.
+
+Definition dinv (n : nat) (st : dstate) : Prop :=
+  let '(scores, fluid, _) := st in length scores = n /\ length fluid = n.
+
+Lemma dit_node_ok n indptr indices (data : list Q) damping i st :
+  csr_wf n indptr indices data -> i < n -> dinv n st ->
+  exists st', dit_node indptr indices data damping i st = KOk st' /\ dinv n st'.
+Proof.
+  intros Hwf Hi Hinv. pose proof Hwf as [Hpat Hd].
+  destruct st as [[scores fluid] residu]. destruct Hinv as [Hs Hf].
+  unfold dit_node.
+  rewrite (rd_ok fluid i 0%Q) by lia. cbn [kbind].
+  destruct (Qlt_le_dec 0 (nth i fluid 0%Q)); [|eexists; split; [reflexivity|split; assumption]].
+  rewrite (rd_ok scores i 0%Q) by lia. cbn [kbind].
+  rewrite wr_ok by lia. cbn [kbind]. rewrite wr_ok by lia. cbn [kbind].
+  rewrite (csr_rd_indptr _ _ _ i Hpat) by lia. cbn [kbind].
+  rewrite (csr_rd_indptr _ _ _ (S i) Hpat) by lia. cbn [kbind].
+  destruct (negb (ip indptr (S i) =? ip indptr i)).
+  - destruct (dit_row_ok n indptr indices data (nth i fluid 0%Q * damping)%Q Hwf
+                (seq (ip indptr i) (ip indptr (S i) - ip indptr i)) (set_nth fluid i 0%Q))
+      as (fluid2 & Hr & Hl2).
+    { apply (row_range_lt n); auto. }
+    { rewrite set_nth_length. exact Hf. }
+    rewrite Hr. cbn [kbind]. eexists. split; [reflexivity|].
+    split; [rewrite set_nth_length; exact Hs | exact Hl2].
+  - eexists. split; [reflexivity|]. split; rewrite set_nth_length; assumption.
+Qed.
+
+Lemma dit_sweep_ok n indptr indices (data : list Q) damping :
+  csr_wf n indptr indices data ->
+  forall nodes st, (forall i, In i nodes -> i < n) -> dinv n st ->
+    exists st', dit_sweep nodes indptr indices data damping st = KOk st' /\ dinv n st'.
+Proof.
+  intros Hwf. induction nodes as [|i t IH]; intros st Hn Hinv; cbn [dit_sweep].
+  - exists st. auto.
+  - destruct (dit_node_ok n indptr indices data damping i st Hwf (Hn i (or_introl eq_refl)) Hinv)
+      as (st1 & H1 & Hinv1).
+    rewrite H1. cbn [kbind]. apply IH; auto. intros i' Hi'. apply Hn. right. exact Hi'.
+Qed.
+
+Lemma dit_iter_ok n indptr indices (data : list Q) damping tol :
+  csr_wf n indptr indices data ->
+  forall k st sweeps, dinv n st ->
+    exists st' s, dit_iter k n indptr indices data damping tol st sweeps = KOk (st', s) /\
+                  dinv n st' /\ s <= sweeps + k.
+Proof.
+  intros Hwf. induction k as [|k IH]; intros st sweeps Hinv; cbn [dit_iter].
+  - exists st, sweeps. split; [reflexivity|]. split; [exact Hinv|lia].
+  - destruct (dit_sweep_ok n indptr indices data damping Hwf (seq 0 n) st) as (st1 & H1 & Hinv1); auto.
+    { intros i Hi. apply in_seq in Hi. lia. }
+    rewrite H1. cbn [kbind]. destruct st1 as [[sc fl] residu].
+    destruct (Qlt_le_dec residu (tol * (1 - damping))%Q).
+    + eexists. eexists. split; [reflexivity|]. split; [exact Hinv1|lia].
+    + destruct (IH (sc, fl, residu) (S sweeps) Hinv1) as (st' & s & Hi & Hinv' & Hs).
+      exists st', s. split; [exact Hi|]. split; [exact Hinv'|lia].
+Qed.
+
+(** diffusion (D-iteration): no access out of bounds; the outer loop runs at most n_iter sweeps
+    (it is a [for] over range(n_iter): structural, no fuel). *)
+Theorem diteration_ok n indptr indices (data scores fluid : list Q) damping n_iter tol :
+  csr_wf n indptr indices data -> length scores = n -> length fluid = n ->
+  exists st s, diteration indptr indices data scores fluid damping n_iter tol = KOk (st, s) /\
+               s <= n_iter.
+Proof.
+  intros Hwf Hs Hf. unfold diteration. rewrite Hf.
+  destruct (dit_iter_ok n indptr indices data damping tol Hwf n_iter
+              (scores, fluid, (1 - damping)%Q) 0) as (st & s & Hi & _ & Hle).
+  { split; assumption. }
+  exists st, s. split; [exact Hi|lia].
+Qed.
+
+(** push_pagerank *)
+Lemma push_init_row_ok n rev_indptr rev_indices degrees vertex :
+  csr_pat_wf n rev_indptr rev_indices -> length degrees = n -> vertex < n ->
+  forall js residuals, (forall k, In k js -> k < length rev_indices) -> length residuals = n ->
+    exists r, push_init_row js rev_indices degrees residuals vertex = KOk r /\ length r = n.
+Proof.
+  intros Hwf Hdg Hv. induction js as [|j t IH]; intros residuals Hjs Hr; cbn [push_init_row].
+  - exists residuals. auto.
+  - destruct (csr_rd_indices _ _ _ j Hwf (Hjs j (or_introl eq_refl))) as [Hrd Hlt].
+    rewrite Hrd. cbn [kbind].
+    rewrite (rd_ok degrees _ 0) by lia. cbn [kbind].
+    rewrite (rd_ok residuals vertex 0%Q) by lia. cbn [kbind].
+    rewrite wr_ok by lia. cbn [kbind].
+    apply IH.
+    + intros k Hk. apply Hjs. right. exact Hk.
+    + rewrite set_nth_length. exact Hr.
+Qed.
+
+Lemma push_init_ok n rev_indptr rev_indices degrees (seeds : list Q) damping :
+  csr_pat_wf n rev_indptr rev_indices -> length degrees = n -> length seeds = n ->
+  forall vs residuals, (forall v, In v vs -> v < n) -> length residuals = n ->
+    exists r, push_init vs rev_indptr rev_indices degrees seeds damping residuals = KOk r /\ length r = n.
+Proof.
+  intros Hwf Hdg Hsd. induction vs as [|v t IH]; intros residuals Hvs Hr; cbn [push_init].
+  - exists residuals. auto.
+  - assert (Hv : v < n) by (apply Hvs; left; reflexivity).
+    rewrite (csr_rd_indptr _ _ _ v Hwf) by lia. cbn [kbind].
+    rewrite (csr_rd_indptr _ _ _ (S v) Hwf) by lia. cbn [kbind].
+    destruct (push_init_row_ok n rev_indptr rev_indices degrees v Hwf Hdg Hv
+                (seq (ip rev_indptr v) (ip rev_indptr (S v) - ip rev_indptr v)) residuals)
+      as (res1 & H1 & Hl1); auto.
+    { apply (row_range_lt n); auto. }
+    rewrite H1. cbn [kbind].
+    rewrite (rd_ok res1 v 0%Q) by lia. cbn [kbind].
+    rewrite (rd_ok seeds v 0%Q) by lia. cbn [kbind].
+    rewrite wr_ok by lia. cbn [kbind].
+    apply IH.
+    + intros v' Hv'. apply Hvs. right. exact Hv'.
+    + rewrite set_nth_length. exact Hl1.
+Qed.
+
+Lemma push_row_ok n indptr indices degrees damping tol vertex :
+  csr_pat_wf n indptr indices -> length degrees = n -> vertex < n ->
+  forall js residuals worklist,
+    (forall k, In k js -> k < length indices) -> length residuals = n ->
+    Forall (fun v => v < n) worklist ->
+    exists r w, push_row js indices degrees damping tol vertex residuals worklist = KOk (r, w) /\
+                length r = n /\ Forall (fun v => v < n) w.
+Proof.
+  intros Hwf Hdg Hv. induction js as [|j t IH]; intros residuals worklist Hjs Hr Hw; cbn [push_row].
+  - exists residuals, worklist. auto.
+  - destruct (csr_rd_indices _ _ _ j Hwf (Hjs j (or_introl eq_refl))) as [Hrd Hlt].
+    rewrite Hrd. cbn [kbind].
+    rewrite (rd_ok residuals (nth j indices 0) 0%Q) by lia. cbn [kbind].
+    rewrite (rd_ok residuals vertex 0%Q) by lia. cbn [kbind].
+    rewrite (rd_ok degrees vertex 0) by lia. cbn [kbind].
+    rewrite wr_ok by lia. cbn [kbind].
+    rewrite (rd_ok (set_nth _ _ _) (nth j indices 0) 0%Q) by (rewrite set_nth_length; lia). cbn [kbind].
+    apply IH.
+    + intros k Hk. apply Hjs. right. exact Hk.
+    + rewrite set_nth_length. exact Hr.
+    + destruct (Qlt_le_dec tol _); [|exact Hw].
+      destruct (Qlt_le_dec _ tol); [|exact Hw].
+      apply Forall_app. split; [exact Hw|]. constructor; [exact Hlt|constructor].
+Qed.
+
+Lemma push_loop_safe n indptr indices degrees damping tol :
+  csr_pat_wf n indptr indices -> length degrees = n ->
+  forall fuel scores residuals worklist,
+    length scores = n -> length residuals = n -> Forall (fun v => v < n) worklist ->
+    push_loop fuel indptr indices degrees damping tol scores residuals worklist <> OOB.
+Proof.
+  intros Hwf Hdg. induction fuel as [|f IH]; intros scores residuals worklist Hs Hr Hw;
+    destruct worklist as [|v rest]; cbn [push_loop]; try discriminate.
+  inversion Hw as [|? ? Hv Hrest]; subst.
+  rewrite (rd_ok scores v 0%Q) by lia. cbn [kbind].
+  rewrite (rd_ok residuals v 0%Q) by lia. cbn [kbind].
+  rewrite wr_ok by lia. cbn [kbind].
+  rewrite (csr_rd_indptr _ _ _ v Hwf) by lia. cbn [kbind].
+  rewrite (csr_rd_indptr _ _ _ (S v) Hwf) by lia. cbn [kbind].
+  destruct (push_row_ok n indptr indices degrees damping tol v Hwf Hdg Hv
+              (seq (ip indptr v) (ip indptr (S v) - ip indptr v)) residuals rest)
+    as (r & w & H1 & Hl1 & Hw1); auto.
+  { apply (row_range_lt n); auto. }
+  rewrite H1. cbn [kbind fst snd]. apply IH; auto. rewrite set_nth_length. exact Hs.
+Qed.
+
+(** push_pagerank: no access out of bounds, for every fuel. Termination of the work-list loop is NOT
+    claimed (with exact arithmetic nothing bounds the number of re-insertions by a function of n alone). *)
+Theorem push_pagerank_safe_ok fuel n degrees indptr indices rev_indptr rev_indices (seeds : list Q)
+        damping tol argsort :
+  csr_pat_wf n indptr indices -> csr_pat_wf n rev_indptr rev_indices ->
+  length degrees = n -> length seeds = n ->
+  (forall r, Forall (fun v => v < n) (argsort r)) ->
+  push_pagerank fuel n degrees indptr indices rev_indptr rev_indices seeds damping tol argsort <> OOB.
+Proof.
+  intros Hwf Hrev Hdg Hsd Harg. unfold push_pagerank.
+  destruct (push_init_ok n rev_indptr rev_indices degrees seeds damping Hrev Hdg Hsd
+              (seq 0 n) (repeat 0%Q n)) as (res & H1 & Hl1).
+  { intros v Hv. apply in_seq in Hv. lia. }
+  { apply repeat_length. }
+  rewrite H1. cbn [kbind].
+  apply (push_loop_safe n); auto. apply repeat_length.
+Qed.
+
+(** * 6. The driver loop of Propagation.fit *)
+
+Lemma prop_loop_eq fuel n_iter S_ idx t lr labels :
+  prop_loop fuel n_iter S_ idx t lr labels =
+  if (match n_iter with None => true | Some m => t <? m end) && negb (zlist_eqb lr (take labels idx)) then
+    match fuel with
+    | O => OutOfFuel
+    | S f => match S_ labels with
+             | VOOB _ => OOB
+             | VOk labels' => prop_loop f n_iter S_ idx (S t) (take labels idx) labels'
+             end
+    end
+  else KOk (labels, t).
+Proof. destruct fuel; reflexivity. Qed.
+
+(** With a finite n_iter the loop runs at most n_iter sweeps: fuel n_iter - t suffices, for ANY sweep
+    function that is safe on the labellings satisfying an invariant [I]. *)
+Lemma prop_loop_finite (I : list Z -> Prop) S_ idx m :
+  (forall l, I l -> exists l', S_ l = VOk l' /\ I l') ->
+  forall fuel t lr labels, I labels -> m - t <= fuel ->
+    exists l' t', prop_loop fuel (Some m) S_ idx t lr labels = KOk (l', t') /\ t' <= Nat.max t m.
+Proof.
+  intros HS. induction fuel as [|f IH]; intros t lr labels HI Hf; rewrite prop_loop_eq.
+  - assert (E : t <? m = false) by (apply Nat.ltb_ge; lia). rewrite E. cbn [andb].
+    exists labels, t. split; [reflexivity|lia].
+  - destruct (t <? m) eqn:E; cbn [andb]; [|exists labels, t; split; [reflexivity|lia]].
+    apply Nat.ltb_lt in E.
+    destruct (negb (zlist_eqb lr (take labels idx))); [|exists labels, t; split; [reflexivity|lia]].
+    destruct (HS labels HI) as (l' & Hl' & HI'). rewrite Hl'.
+    destruct (IH (S t) (take labels idx) l' HI' ltac:(lia)) as (l2 & t2 & H2 & Ht2).
+    exists l2, t2. split; [exact H2|lia].
+Qed.
+
+Theorem propagation_fit_finite_ok n indptr indices (data : list Q) index labels0 m :
+  csr_wf n indptr indices data -> length labels0 = n -> (forall i, In i index -> i < n) ->
+  exists labels t, propagation_fit m (Some m) indptr indices data index labels0 = KOk (labels, t) /\
+                   t <= m.
+Proof.
+  intros Hwf Hl Hidx. unfold propagation_fit.
+  destruct (prop_loop_finite (fun l => length l = n) (sweep indptr indices data index) index m)
+    with (fuel := m) (t := 0) (lr := map (fun _ : nat => 0%Z) index) (labels := labels0)
+    as (l' & t' & H1 & H2); auto; try lia.
+  { intros l Hlen. unfold sweep. apply (vote_update_safe_ok n); auto. }
+  exists l', t'. split; [exact H1|lia].
+Qed.
+
+(** Oscillation witness (found by search with the real implementation, see the report):
+    5 nodes, seeds {0: 0, 1: 1}, directed weighted edges
+      2 -> 0 (1), 2 -> 3 (3), 3 -> 1 (1), 3 -> 4 (3), 4 -> 0 (1), 4 -> 2 (3). *)
+Definition osc_indptr := [0; 0; 0; 2; 4; 6].
+Definition osc_indices := [0; 3; 1; 4; 0; 2].
+Definition osc_data : list Q := [1; 3; 1; 3; 1; 3]%Q.
+Definition osc_labels0 : list Z := [0; 1; -1; -1; -1]%Z.
+Definition osc_index := [2; 3; 4].
+Definition osc_l1 : list Z := [0; 1; 0; 1; 0]%Z.
+Definition osc_l2 : list Z := [0; 1; 1; 0; 1]%Z.
+Definition osc_S := sweep osc_indptr osc_indices osc_data osc_index.
+
+Lemma osc_S0 : osc_S osc_labels0 = VOk osc_l1. Proof. vm_compute. reflexivity. Qed.
+Lemma osc_S1 : osc_S osc_l1 = VOk osc_l2. Proof. vm_compute. reflexivity. Qed.
+Lemma osc_S2 : osc_S osc_l2 = VOk osc_l1. Proof. vm_compute. reflexivity. Qed.
+
+Lemma osc_loop_forever : forall fuel t,
+  prop_loop fuel None osc_S osc_index t (take osc_l2 osc_index) osc_l1 = OutOfFuel /\
+  prop_loop fuel None osc_S osc_index t (take osc_l1 osc_index) osc_l2 = OutOfFuel.
+Proof.
+  induction fuel as [|f IH]; intros t; split; rewrite prop_loop_eq.
+  - reflexivity.
+  - reflexivity.
+  - replace (true && negb (zlist_eqb (take osc_l2 osc_index) (take osc_l1 osc_index))) with true
+      by (vm_compute; reflexivity).
+    rewrite osc_S1. apply IH.
+  - replace (true && negb (zlist_eqb (take osc_l1 osc_index) (take osc_l2 osc_index))) with true
+      by (vm_compute; reflexivity).
+    rewrite osc_S2. apply IH.
+Qed.
+
+Theorem propagation_oscillation_refuted_ok :
+  csr_wf 5 osc_indptr osc_indices osc_data /\ length osc_labels0 = 5 /\
+  (forall i, In i osc_index -> i < 5) /\
+  osc_S osc_labels0 = VOk osc_l1 /\
+  osc_S osc_l1 = VOk osc_l2 /\ osc_S osc_l2 = VOk osc_l1 /\ osc_l2 <> osc_l1 /\
+  forall fuel, propagation_fit fuel None osc_indptr osc_indices osc_data osc_index osc_labels0 = OutOfFuel.
+Proof.
+  split; [apply csr_wf_b_sound; reflexivity|]. split; [reflexivity|].
+  split; [intros i Hi; simpl in Hi; lia|].
+  split; [exact osc_S0|]. split; [exact osc_S1|]. split; [exact osc_S2|].
+  split; [discriminate|].
+  intros fuel. unfold propagation_fit. fold osc_S.
+  rewrite prop_loop_eq.
+  replace (true && negb (zlist_eqb (map (fun _ : nat => 0%Z) osc_index) (take osc_labels0 osc_index)))
+    with true by (vm_compute; reflexivity).
+  destruct fuel as [|f]; [reflexivity|]. rewrite osc_S0.
+  rewrite prop_loop_eq.
+  replace (true && negb (zlist_eqb (take osc_labels0 osc_index) (take osc_l1 osc_index)))
+    with true by (vm_compute; reflexivity).
+  destruct f as [|f]; [reflexivity|]. rewrite osc_S1.
+  apply osc_loop_forever.
+Qed.
